@@ -30,12 +30,16 @@ static bool has_fence_rel[MAXT];
 static VC sc_clock;
 static std::map<uintptr_t, size_t> freed;                // quarantined freed blocks of this run
 static std::map<uintptr_t, size_t> live;
+struct Guard { uintptr_t lo, hi, base; };
+static std::map<uintptr_t, Guard> guards;              // padded harness buffers: [base, base+pad) with valid [lo, hi)
 
 void reset() {
   shadow.clear();
   sync.clear();
   freed.clear();
   live.clear();
+  for (auto &g : guards) free((void *)g.second.base);
+  guards.clear();
   sc_clock.clear();
   for (int i = 0; i < MAXT; i++) { fence_rel[i].clear(); pending_acq[i].clear(); has_fence_rel[i] = false; }
 }
@@ -49,7 +53,38 @@ static inline bool on_own_stack(Task *t, uintptr_t a) {
   return a >= (uintptr_t)t->stack && a < (uintptr_t)t->stack + t->stack_size;
 }
 
+static void check_guard(uintptr_t a, size_t n, bool write) {
+  auto it = guards.upper_bound(a + n - 1);
+  if (it == guards.begin()) return;
+  --it;
+  const Guard &g = it->second;
+  if (a + n <= g.base || a >= g.base + (g.hi - g.base) + 64) return;
+  if (a < g.lo || a + n > g.hi) {
+    Task *t = cur();
+    violate("caller_buffer_overrun", t && t->api ? t->api : "", "%s of %zu bytes at offset %ld of a caller buffer of %zu bytes", write ? "write" : "read", n, (long)(a - g.lo), (size_t)(g.hi - g.lo));
+  }
+}
+
+void *guard_malloc(size_t n) {
+  size_t pad = 64;
+  char *base = (char *)malloc(n + 2 * pad);
+  memset(base, 0xCB, n + 2 * pad);
+  Guard g{(uintptr_t)base + pad, (uintptr_t)base + pad + n, (uintptr_t)base};
+  guards[(uintptr_t)base] = g;
+  return base + pad;
+}
+void guard_free(void *p) {
+  if (!p) return;
+  uintptr_t base = (uintptr_t)p - 64;
+  auto it = guards.find(base);
+  if (it == guards.end()) return;
+  forget_range((void *)base, it->second.hi - base + 64);
+  // the block is kept until the end of the run (no address reuse inside a run)
+  it->second.lo = it->second.hi = 0;
+}
+
 static void check_heap(uintptr_t a, size_t n, bool write) {
+  if (!guards.empty()) check_guard(a, n, write);
   if (freed.empty()) return;
   auto it = freed.upper_bound(a + n - 1);
   if (it == freed.begin()) return;
